@@ -506,3 +506,82 @@ func TestRegress_Over100Chunks(t *testing.T) {
 		}
 	}
 }
+
+// TestProp_LongLists: the list a ClientHello carries may hold hundreds of entries: a
+// payload's chunks stand behind, or spread among, many short unrelated protocol names
+// (1-2 bytes each, so that everything still fits a ClientHello). Position in the list
+// must not matter.
+func TestProp_LongLists(t *testing.T) {
+	rec := vkit.Rec(prop)
+	vkit.SetRapidChecks(vkit.N(150))
+	rapid.Check(t, func(t *rapid.T) {
+		prefix := rapid.SampledFrom(prefixes[:2]).Draw(t, "prefix")
+		n := rapid.SampledFrom([]int{1, 3, 213, 1000, 5000, 20000, 50000, 56000}).Draw(t, "payloadLen")
+		value := base64.RawStdEncoding.EncodeToString(rapid.SliceOfN(rapid.Byte(), n, n).Draw(t, "payload"))[:n]
+		entries, err := nodetls.BreakIntoNextProtos(prefix, value)
+		if err != nil {
+			t.Fatalf("break: %v", err)
+		}
+		foreignN := rapid.SampledFrom([]int{10, 100, 250, 273, 274, 275, 300, 500, 900}).Draw(t, "foreignNames")
+		// keep the whole list inside the 64 KiB protocol-name-list limit of a ClientHello
+		budget := 65000 - len(entries)*256
+		if foreignN*3 > budget {
+			foreignN = budget / 3
+		}
+		if foreignN < 0 {
+			foreignN = 0
+		}
+		placement := rapid.SampledFrom([]string{"all-before", "spread", "all-after", "before-and-between"}).Draw(t, "placement")
+		name := func(i int) string { return string([]byte{byte('a' + i%26), byte('A' + (i/26)%26)}) }
+		var list []string
+		switch placement {
+		case "all-before":
+			for i := 0; i < foreignN; i++ {
+				list = append(list, name(i))
+			}
+			list = append(list, entries...)
+		case "all-after":
+			list = append(list, entries...)
+			for i := 0; i < foreignN; i++ {
+				list = append(list, name(i))
+			}
+		default:
+			per := foreignN / (len(entries) + 1)
+			k := 0
+			if placement == "before-and-between" {
+				for ; k < foreignN/2; k++ {
+					list = append(list, name(k))
+				}
+				per = (foreignN - k) / (len(entries) + 1)
+			}
+			for _, e := range entries {
+				for j := 0; j < per; j++ {
+					list = append(list, name(k))
+					k++
+				}
+				list = append(list, e)
+			}
+			for ; k < foreignN; k++ {
+				list = append(list, name(k))
+			}
+		}
+		lastChunkAt := 0
+		for i, e := range list {
+			if strings.HasPrefix(e, prefix) {
+				lastChunkAt = i
+			}
+		}
+		desc := func() any {
+			return map[string]any{"prefix": prefix, "payload_len": n, "chunks": len(entries), "foreign_names": foreignN, "placement": placement, "list_entries": len(list), "index_of_last_chunk": lastChunkAt}
+		}
+		rec.Case(fmt.Sprintf("long-list/%s/last-chunk-at>=256=%v", placement, lastChunkAt >= 256), fmt.Sprint(prefix, n, foreignN, placement), len(list) > 100, desc)
+		var got string
+		if pv, stack := vkit.Guard(func() { got, err = nodetls.CombineFromNextProtos(prefix, list) }); pv != nil {
+			vkit.Violate(t, prop, "C20/panic/combine-wellformed", fmt.Sprintf("CombineFromNextProtos panicked on a long list: %v", pv), map[string]any{"case": desc(), "stack": stack})
+			return
+		}
+		if err != nil || got != value {
+			vkit.Violate(t, prop, "C20/roundtrip/long-list", fmt.Sprintf("a %d-byte payload (%d chunks) in a list of %d entries (last chunk at index %d) recombined to %d bytes, err=%v", n, len(entries), len(list), lastChunkAt, len(got), err), desc())
+		}
+	})
+}
